@@ -1,6 +1,7 @@
 """Witness search / replay for C15 on the real code: a failure injected at every write-call index of
 every corpus document, plus a one-byte-at-a-time sink (replay aid; bounded by the corpus)."""
 from __future__ import annotations
+import re
 import os
 from ..replay import run_test_module, scratch_repo
 
@@ -87,8 +88,10 @@ def search(repo: str, tier: str = 'quick') -> dict:
     rc, outp = run_test_module(module_src(docs), 'verif_replay_w::inject', repo)
     res = {'documents': 0, 'write_calls_injected': 0, 'anomalies': [], 'skipped': [], 'rc': rc}
     for line in outp.splitlines():
-        if not line.startswith('W|'):
+        m_ = re.match(r'^(?:test \S+ \.\.\. )?(W\|.*)$', line)
+        if not m_:
             continue
+        line = m_.group(1)
         _, path, k, what = line.split('|', 3)
         path = os.path.relpath(path, root)
         if what == 'done':
